@@ -334,14 +334,18 @@ def extendChain (rs : List Rate) (k : Nat) : List Rate :=
 /-- … removing the last `k` transits … -/
 def shrinkChain (rs : List Rate) (k : Nat) : List Rate := rs.take (rs.length - k)
 
-/-- … and `_update_numerators` resets every integer numerator to the number of transits. -/
-def updateNumerators (rs : List Rate) : List Rate := rs.map (fun r => { r with numer := rs.length })
+/-- … and `_update_numerators` resets every integer numerator to the number of transits *that
+    `find_transit_compartments` detects*.  A single remaining transit in a model without depot is not detected
+    (it is indistinguishable from a depot), so then nothing is updated (`detects = false`). -/
+def updateNumerators (detects : Bool) (rs : List Rate) : List Rate :=
+  if detects then rs.map (fun r => { r with numer := rs.length }) else rs
 
-def setTransits (rs : List Rate) (n : Nat) (mdt : Sym) : List Rate :=
+def setTransits (rs : List Rate) (n : Nat) (mdt : Sym) (depot : Bool) : List Rate :=
   if rs.length = n then rs
   else if rs.length = 0 then newChain n mdt
-  else if n < rs.length then updateNumerators (shrinkChain rs (rs.length - n))
-  else updateNumerators (extendChain rs (n - rs.length))
+  else if n < rs.length then
+    updateNumerators (depot || n != 1) (shrinkChain rs (rs.length - n))
+  else updateNumerators true (extendChain rs (n - rs.length))
 
 def rateValue (ρ : Env Rat) (r : Rate) : Rat := (r.numer : Rat) / ρ r.denom
 
